@@ -35,6 +35,9 @@ Effect(e, h) ==
     [] e.ev = "Copy"            -> ME!R(ME!SubMol(h[e.src], ME!KeySeq(h[e.src])), "none")
     [] e.ev = "Subgraph"        -> ME!R(ME!SubMol(h[e.src], e.ks), "none")
     [] e.ev = "Merge"           -> ME!EffMerge(h[e.m], h[e.n])
+    [] e.ev = "MergeAll"        -> ME!R(ME!FoldMerge(h[e.ks[1]], h, Tail(e.ks)), "none")                      \* into the first molecule
+    [] e.ev = "MergeChains"     -> ME!R(ME!MergedChains(h, e.ks, SeqToSet(e.at)), "none")                     \* e.at: the chains
+    [] e.ev = "ToMolecule"      -> ME!R(ME!ToMolecule(h[e.src], e.k, e.r, e.v), "none")                       \* block = cell e.src
 
 Proj(M) == [nodes |-> M.nodes, edges |-> M.edges, inter |-> M.inter]
 Logged(p) == [nodes |-> p.nodes, edges |-> {<<p.edges[i][1], p.edges[i][2]>> : i \in DOMAIN p.edges}, inter |-> p.inter]
